@@ -483,6 +483,15 @@ class Engine:
     def map_builder(self) -> str:
         mod, cls = self.message_cls.split(".")
         c = [f.qualname for f in self.repo.methods(mod, cls) if any(isinstance(n, ast.Name) and n.id == "PRNSIGMAP" for n in walk_no_nested(f.node))]
+        if not c:
+            # the table is read through an accessor: the builder is the method the single-field routine calls besides the decoder cycle
+            sfr = self.single_field_routine
+            cyc = set()
+            try:
+                cyc = set(self.decoder_cycle)
+            except AnalysisError:
+                pass
+            c = [q for q in sorted(self.res.callees(sfr)) if q.startswith(self.message_cls + ".") and q not in cyc and q != sfr and not self.repo.funcs[q].is_property]
         return self._one("map builder", c)
 
     @cached_property
